@@ -4,6 +4,7 @@ import (
 	"encoding/binary"
 	"fmt"
 	"math/rand/v2"
+	"net"
 	"net/netip"
 	"os"
 	"runtime"
@@ -14,7 +15,9 @@ import (
 	"time"
 
 	"github.com/anishathalye/porcupine"
+	"golang.org/x/net/ipv4"
 	"github.com/scionproto/scion/pkg/addr"
+	"github.com/scionproto/scion/pkg/slayers"
 
 	"example.com/scion-time/core/server"
 	"example.com/scion-time/net/ntp"
@@ -378,9 +381,17 @@ func c07Conc(args []string) {
 		}
 		rng := r.Rng("c07c/" + id)
 		server.VerifReset()
-		nG := 2 + rng.IntN(15)
+		// history size is bounded so that the linearizability check stays tractable (its cost climbs
+		// steeply with the number of overlapping operations on one client)
+		nG := 2 + rng.IntN(9)
+		if rng.IntN(4) == 0 {
+			nG = 8 + rng.IntN(9)
+		}
 		nC := 1 + rng.IntN(3)
-		perG := max(1, (16+rng.IntN(32))/(2*nG))
+		perG := max(1, (12+rng.IntN(24))/(2*nG))
+		if nG > 10 {
+			nC = 3
+		}
 		clock := base + int64(h)*1e6 + 500
 		theClock.now.Store(clock)
 		var ts atomic.Int64
@@ -471,7 +482,7 @@ func c07Conc(args []string) {
 		interleavings[fp.String()] = struct{}{}
 		overlapTotal += overlap
 		opsTotal += int64(len(ops))
-		res, info := porcupine.CheckOperationsVerbose(c07Model, ops, 60*time.Second)
+		res, info := porcupine.CheckOperationsVerbose(c07Model, ops, 180*time.Second)
 		r.Eval(int64(len(ops)))
 		switch res {
 		case porcupine.Ok:
@@ -552,6 +563,9 @@ func init() {
 		}
 		if r.Only() == "" {
 			c07Listeners(r)
+			if r.Thorough() {
+				c07Flood(r)
+			}
 		}
 		r.CollectRaces(true, "core/server")
 		r.Assume("hook level (build tag verif): handleRequest/updateTXTimestamp driven as the listeners drive them; linearizability checked below capacity where clients do not interact (partition by client)")
@@ -559,7 +573,7 @@ func init() {
 		r.Finish("(a) 80-operation histories on 1..12 clients with the store walked under its own lock after every operation (map/heap agreement, back-pointers, heap order, 1..8 exchanges, ranking >= latest exchange; = for clients whose requests arrive in timestamp order); "+
 			"(b) fill to exactly 2^20 clients, then newcomers older / equal / newer than the least recently active client and requests of known clients: client set changes exactly as stated, count never above 2^20; "+
 			"(c) under the race detector: the real 8 IP + 16 SCION listener goroutines fired at from 32..64 sockets sharing three client addresses; and 2..16 goroutines issuing handle/update pairs on 1..3 clients with colliding receive times, every call recorded at the boundary from one atomic counter, final per-client snapshot; each history checked with porcupine "+
-			"(partitioned by client, 60 s budget: timeout = inconclusive). distinct_nontrivial = distinct small-store histories + newcomers + distinct recorded interleavings", 8)
+			"(partitioned by client, 180 s budget per history: timeout = inconclusive). distinct_nontrivial = distinct small-store histories + newcomers + distinct recorded interleavings", 8)
 	})
 }
 
@@ -578,7 +592,7 @@ func c07Listeners(r *ev.Run) {
 	defer tgt.Kill()
 	lia, _ := addr.ParseIA("1-ff00:0:110")
 	nSock := r.Pick(32, 64)
-	perSock := r.Pick(150, 3000)
+	perSock := r.Pick(150, 1200)
 	var wg sync.WaitGroup
 	var sent, got atomic.Int64
 	for s := 0; s < nSock; s++ {
@@ -605,14 +619,22 @@ func c07Listeners(r *ev.Run) {
 					dg = req.Bytes()
 				default:
 					dst = netip.AddrPortFrom(srv, []uint16{10123, 30041}[s%2])
-					dg, _ = (&peer.SCIONPkt{SrcIA: lia, DstIA: lia, SrcHost: cli, DstHost: srv, SrcPort: uc.Local().Port(), DstPort: 10123, Payload: req.Bytes()}).Serialize()
+					pk := &peer.SCIONPkt{SrcIA: lia, DstIA: lia, SrcHost: cli, DstHost: srv, SrcPort: uc.Local().Port(), DstPort: 10123, Payload: req.Bytes()}
+					if k%3 == 0 { // with a packet authenticator and a source ISD-AS the listener has not seen: key cache lookups and fills
+						pk.SrcIA = addr.MustIAFrom(addr.ISD(1+rng.IntN(60000)), addr.AS(1+rng.Int64N(1<<40)))
+						pk.Path = peer.SCIONPath(rng, 2)
+						pk.E2E = []*slayers.EndToEndOption{peer.NewAuthOption(1<<17|1<<16|123, 0)}
+						dg, _ = peer.SignPkt(pk, make([]byte, 16))
+					} else {
+						dg, _ = pk.Serialize()
+					}
 				}
 				if uc.Send(dst, dg) != nil {
 					return
 				}
 				sent.Add(1)
 				if k%4 == 3 { // keep a few requests in flight, then collect
-					for _, d := range uc.Drain(2 * time.Millisecond) {
+					for _, d := range uc.Drain(4 * time.Millisecond) {
 						p := d.Data
 						if s%3 != 0 {
 							p = scionUnwrap(d.Data)
@@ -643,9 +665,100 @@ func c07Listeners(r *ev.Run) {
 		r.Violation("listeners|"+kind+"|concurrent requests of few clients", "listeners", map[string]any{"first_line": first, "stderr": tgt.Stderr()})
 		return
 	}
-	if got.Load() > sent.Load()/2 {
+	if got.Load() > sent.Load()/5 { // the race build is slow and replies may be dropped at the sockets; the oracle is the race log
 		r.Class("real-listeners-under-concurrent-fire")
 	} else {
 		r.Inconclusive(fmt.Sprintf("listeners answered only %d of %d requests", got.Load(), sent.Load()))
+	}
+}
+
+// c07Flood (thorough): more than 2^20 distinct client identities through the real IP listener.
+// One socket sends from 2^20 + 2^16 different 127.x.y.z source addresses (IP_PKTINFO); the
+// replies come back to that socket, which paces the sender. The store is then walked in the
+// listener process through the hook.
+func c07Flood(r *ev.Run) {
+	srv := blockIP(r, 7, 1)
+	tgt, err := StartTarget("plain", "-ip", srv.String(), "-kinds", "ip")
+	if err != nil {
+		r.Inconclusive("target: " + err.Error())
+		return
+	}
+	defer tgt.Kill()
+	c, err := net.ListenUDP("udp4", &net.UDPAddr{IP: net.IPv4zero, Port: 0})
+	if err != nil {
+		r.Inconclusive(err.Error())
+		return
+	}
+	defer c.Close()
+	_ = c.SetReadBuffer(8 << 20)
+	pc := ipv4.NewPacketConn(c)
+	total := server.VerifTSSCap + 1<<16
+	dst := &net.UDPAddr{IP: srv.AsSlice(), Port: 123}
+	var recv atomic.Int64
+	go func() {
+		buf := make([]byte, 2048)
+		for {
+			if _, _, err := c.ReadFromUDPAddrPort(buf); err != nil {
+				return
+			}
+			recv.Add(1)
+		}
+	}()
+	cm := &ipv4.ControlMessage{}
+	t0 := time.Now()
+	stalls := 0
+	for i := 0; i < total; i++ {
+		cm.Src = net.IPv4(127, byte(200+i>>16), byte(i>>8), byte(i))
+		req := peer.NTPRequest(peer.UniqueTime64())
+		if _, err := pc.WriteTo(req, cm, dst); err != nil {
+			r.Inconclusive("flood send: " + err.Error())
+			return
+		}
+		for wait := 0; int64(i)-recv.Load() > 512; wait++ { // at most 512 requests outstanding
+			time.Sleep(50 * time.Microsecond)
+			if wait > 2000 { // replies lost: do not wait for them forever
+				recv.Store(int64(i))
+				stalls++
+				break
+			}
+		}
+		if i == server.VerifTSSCap/2 || i == server.VerifTSSCap-1 {
+			rep := tgt.StoreReport(20 * time.Second)
+			var n, v int
+			var e string
+			fmt.Sscanf(strings.TrimPrefix(rep, "LOG STORE "), "clients=%d values=%d err=%s", &n, &v, &e)
+			if rep == "" || e != "<nil>" || n > i+1 || n < (i+1)*9/10 {
+				r.Violation("listeners|state:store of the real listener below capacity does not hold one client per distinct source|wire flood", "flood", map[string]any{"sent": i + 1, "report": rep})
+			}
+		}
+	}
+	time.Sleep(200 * time.Millisecond)
+	rep := tgt.StoreReport(30 * time.Second)
+	var n, v int
+	var e string
+	fmt.Sscanf(strings.TrimPrefix(rep, "LOG STORE "), "clients=%d values=%d err=%s", &n, &v, &e)
+	r.Eval(int64(total))
+	r.Set("flood_datagrams", total)
+	r.Set("flood_replies", recv.Load())
+	r.Set("flood_wall_s", time.Since(t0).Seconds())
+	r.Set("flood_store_report", rep)
+	r.Set("flood_sender_stalls", stalls)
+	w := map[string]any{"distinct_sources": total, "report": rep}
+	switch {
+	case rep == "":
+		if !tgt.Alive() {
+			first, frame := tgt.ExitInfo()
+			r.Violation("listeners|panic:"+c08Sig(frame)+"|wire flood", "flood", map[string]any{"first_line": first})
+		} else {
+			r.Inconclusive("no store report from the listener process")
+		}
+	case e != "<nil>":
+		r.Violation("listeners|state:store invariant violated after the flood|wire flood", "flood", w)
+	case n > server.VerifTSSCap:
+		r.Violation("listeners|state:more than 2^20 clients kept|wire flood", "flood", w)
+	case n < server.VerifTSSCap && stalls == 0:
+		r.Violation("listeners|state:store not filled to capacity by more than 2^20 distinct clients|wire flood", "flood", w)
+	default:
+		r.Class("wire-flood:2^20+2^16-sources->store-at-capacity")
 	}
 }
